@@ -97,7 +97,8 @@ def gen_queries(rng, src, tier):
         elif k == 'littype':
             a = rng.choice(['bool', 'str', 'int', 'float', 'list', 'dict'])
         else:
-            a = rng.choice(pygen.MODS + ['sys'])
+            # module names, and names that only occur as imported members / aliases (never modules)
+            a = rng.choice(pygen.MODS + ['sys'] + (['sqrt', 'a', 'b', 'path', 'p', 'm'] if rng.random() < 0.5 else []))
         q = {'kind': k, 'arg': a, 'n': rng.randrange(0, 5), 'm': rng.randrange(0, 5)}
         if rng.random() < 0.25:
             # history: another program is parsed in the same report between two queries of the main code
@@ -194,8 +195,8 @@ def correspondence(ctx):
         src = ('x = %s a\n' % sym) if sym in ('not', '~') else ('x = a %s b\ny = a %s b %s c\n' % (sym, sym, sym))
         progs.append({'src': src, 'queries': [{'kind': 'op', 'arg': sym, 'n': n, 'm': m}
                                                for n, m in ((0, 0), (1, 1), (2, 2), (3, 3), (4, 4))]})
-    progs.append({'src': 'import os.path, math\nfrom json import *\nx = -5\ny = [True, 1, 1.0, "1"]\nprint(print(1), a.print(2))\n',
-                  'queries': [{'kind': 'import', 'arg': a, 'n': 1, 'm': 0} for a in ('os', 'os.path', 'math', 'json', 'sys')] +
+    progs.append({'src': 'import os.path, math\nfrom json import *\nfrom math import sqrt\nfrom json import loads as j\nx = -5\ny = [True, 1, 1.0, "1"]\nprint(print(1), a.print(2))\n',
+                  'queries': [{'kind': 'import', 'arg': a, 'n': 1, 'm': 0} for a in ('os', 'os.path', 'math', 'json', 'sys', 'path', 'sqrt', 'loads', 'j')] +
                              [{'kind': 'lit', 'arg': a, 'n': 1, 'm': 0} for a in (['int', 1], ['bool', True], ['float', '1.0'], ['str', '1'], ['int', 5])] +
                              [{'kind': 'littype', 'arg': a, 'n': 2, 'm': 1} for a in ('bool', 'str', 'int', 'float', 'list', 'dict')] +
                              [{'kind': 'call', 'arg': 'print', 'n': n, 'm': n} for n in (2, 3, 4)]})
